@@ -65,6 +65,7 @@ def run(spec, seed, attack=None, flood=None, probes=None):
     out.flood_sent = 0
     out.probe_addrs = set()
     out.probe_results = []
+    out.census = {}
     with Sim(seed) as sim:
         sim.install_factories()
         log = sim.net.log
@@ -227,6 +228,7 @@ def run(spec, seed, attack=None, flood=None, probes=None):
                         tg.cancel_scope.cancel()
                     await anyio.sleep(quant(spec.resend_timeout * (spec.resend_limit + 2) + 0.5))
                     out.tables.append((sim.now(), {vp: len(st.clients) for vp, st in streams.items()}))
+                    out.census = census(transport)
                     for cm in reversed(ctxs):
                         await cm.__aexit__(None, None, None)
                     outer.cancel_scope.cancel()
@@ -247,6 +249,30 @@ def run(spec, seed, attack=None, flood=None, probes=None):
         out.rand_values = [v for (_, _, v) in sim.prudp_rand.log]
         out.transport = None
     return out
+
+
+def census(root):
+    """sizes of all containers reachable from a library object through attributes of library objects (classes defined in
+    `nintendo.*`) and builtin containers, aggregated by attribute path — what 'state' means beyond the documented tables"""
+    import collections
+    sizes, seen, stack = {}, set(), [(root, "transport")]
+    while stack and len(seen) < 50000:
+        obj, path = stack.pop()
+        if id(obj) in seen or isinstance(obj, (str, bytes, bytearray, int, float, bool, type(None))):
+            continue
+        seen.add(id(obj))
+        if isinstance(obj, dict):
+            sizes[path] = sizes.get(path, 0) + len(obj)
+            for k, v in obj.items():
+                stack.append((k, path + "{key}")); stack.append((v, path + "{}"))
+        elif isinstance(obj, (list, tuple, set, frozenset, collections.deque)):
+            sizes[path] = sizes.get(path, 0) + len(obj)
+            for v in obj:
+                stack.append((v, path + "[]"))
+        elif type(obj).__module__.startswith("nintendo") and hasattr(obj, "__dict__"):
+            for name, v in vars(obj).items():
+                stack.append((v, path + "." + name))
+    return sizes
 
 
 def victim_view(sess):
